@@ -360,6 +360,18 @@ func indexSafe(fs *Facts, in ssa.Instruction) (string, bool) {
 				}
 			}
 		}
+		// S13: fixed-width records laid out back to back: x = make(T, len(y)*k), x[i*k:(i+1)*k] with 0 <= i < len(y)
+		if x.Low != nil && x.High != nil {
+			if why, ok := recordSlice(fs, x, b); ok {
+				return why, true
+			}
+		}
+		// S12: the low bound is what copy() reported to have filled of this very slice:
+		// copy returns min(len(dst), len(src)), so n := copy(x, ..) satisfies 0 <= n <= len(x),
+		// and n + copy(x[n:], ..) again lies in [0, len(x)]
+		if x.Low != nil && x.High == nil && filledByCopy(x.Low, strip(x.X), 0) {
+			return "S12: the bound is the number of elements copy() reported for this slice (0 <= n <= len)", true
+		}
 		if x.Low != nil {
 			lo, hi := idxBounds(x.Low)
 			if !(lo >= 0 && hi <= minLen) {
@@ -1055,4 +1067,107 @@ func ruleErrPropagate(w *World, r *Report, pkg *ssa.Package, tag string, exempt 
 	if n < 20 {
 		r.Bad(rule, tag+":instance-floor", "-", fmt.Sprintf("only %d error tests found in the read/patch call graph", n))
 	}
+}
+
+// filledByCopy: v is copy(x, _), or a + copy(x[a:], _) with a itself of that form.
+func filledByCopy(v ssa.Value, x ssa.Value, depth int) bool {
+	if depth > 6 {
+		return false
+	}
+	v = stripInt(v)
+	isCopyInto := func(c ssa.Value, low ssa.Value) bool {
+		call, ok := c.(*ssa.Call)
+		if !ok {
+			return false
+		}
+		if b, isB := call.Call.Value.(*ssa.Builtin); !isB || b.Name() != "copy" {
+			return false
+		}
+		dst := strip(call.Call.Args[0])
+		if low == nil {
+			return dst == x
+		}
+		sl, ok := dst.(*ssa.Slice)
+		return ok && strip(sl.X) == x && sl.High == nil && sl.Low != nil && stripInt(sl.Low) == low
+	}
+	if isCopyInto(v, nil) {
+		return true
+	}
+	if bo, ok := v.(*ssa.BinOp); ok && bo.Op == token.ADD {
+		a, b := stripInt(bo.X), stripInt(bo.Y)
+		if filledByCopy(a, x, depth+1) && isCopyInto(b, a) {
+			return true
+		}
+		if filledByCopy(b, x, depth+1) && isCopyInto(a, b) {
+			return true
+		}
+	}
+	return false
+}
+
+// recordSlice — schema S13.
+func recordSlice(fs *Facts, x *ssa.Slice, b *ssa.BasicBlock) (string, bool) {
+	mk, ok := strip(x.X).(*ssa.MakeSlice)
+	if !ok {
+		return "", false
+	}
+	mulOf := func(v ssa.Value) (ssa.Value, int64, bool) {
+		bo, ok := stripInt(v).(*ssa.BinOp)
+		if !ok || bo.Op != token.MUL {
+			return nil, 0, false
+		}
+		if k, ok := constInt(bo.Y); ok {
+			return stripInt(bo.X), k, true
+		}
+		if k, ok := constInt(bo.X); ok {
+			return stripInt(bo.Y), k, true
+		}
+		return nil, 0, false
+	}
+	n, k, ok := mulOf(mk.Len)
+	if !ok || k <= 0 {
+		return "", false
+	}
+	lenCall, ok := n.(*ssa.Call)
+	if !ok {
+		return "", false
+	}
+	if bi, isB := lenCall.Call.Value.(*ssa.Builtin); !isB || bi.Name() != "len" {
+		return "", false
+	}
+	y := strip(lenCall.Call.Args[0])
+	i, k1, ok := mulOf(x.Low)
+	if !ok || k1 != k {
+		return "", false
+	}
+	hi, k2, ok := mulOf(x.High)
+	if !ok || k2 != k {
+		return "", false
+	}
+	// hi = i + 1
+	hb, ok := hi.(*ssa.BinOp)
+	if !ok || hb.Op != token.ADD {
+		return "", false
+	}
+	one, isOne := constInt(hb.Y)
+	if !isOne || one != 1 || stripInt(hb.X) != i {
+		return "", false
+	}
+	// 0 <= i < len(y)
+	lo, _, okb := fs.bounds(i, b)
+	s, reach := fs.At(b)
+	if !reach {
+		return "site is unreachable under the guard facts", true
+	}
+	if !okb || lo < 0 {
+		return "", false
+	}
+	t, off, isC, okT := termOf(i)
+	if !okT || isC {
+		return "", false
+	}
+	if d := s.diffHi(t, term{v: y, isLen: true}); d != math.MaxInt64 && sat(d, off) <= -1 {
+		return fmt.Sprintf("S13: record %d-wide number i of a buffer made with len(y)*%d, with 0 <= i < len(y)", k, k), true
+	}
+	return "", false
 }
